@@ -100,6 +100,7 @@ def callInner (cfg : CallCfg) (st : ClientState) (e : Entry) (arrivals : List Fr
 inductive CallOut (α : Type) where
   | ret (v : Option α)
   | exc (e : PyErr)
+  deriving DecidableEq
 
 /-- returned, or raised one of the documented outcomes -/
 def CallOut.Documented {α : Type} : CallOut α → Prop
